@@ -186,6 +186,8 @@ class SeqUnit(Unit):
         seen = set()
         for m in rep.get("mismatches") or []:
             sig = "%s:lts:%s" % (self.sut, m["op"])
+            if "|panic:" in (m.get("class") or ""):
+                sig = "%s:lts:%s" % (self.sut, m["class"].split("|", 1)[1].rstrip())
             if sig in seen:
                 continue
             seen.add(sig)
@@ -347,7 +349,7 @@ def load_known(ctx):
     if not os.path.exists(p):
         return []
     with open(p) as fh:
-        return json.load(fh).get("findings", [])
+        return [k for k in json.load(fh).get("findings", []) if isinstance(k, dict)]
 
 
 def finish(ctx, wall):
